@@ -405,9 +405,9 @@ def run_shard(ctx, spec):
 
 
 def plan(tier, seed):
-    n = 5000 if tier == "quick" else 50000
-    m = 2500 if tier == "quick" else 20000
-    g = 800 if tier == "quick" else 8000
+    n = 5000 if tier == "quick" else 250000
+    m = 2500 if tier == "quick" else 100000
+    g = 800 if tier == "quick" else 30000
     return ([("library", n // 16, i) for i in range(16)] + [("binary", m // 16, i) for i in range(16)]
             + [("generators", g // 8, i) for i in range(8)])
 
